@@ -6,6 +6,7 @@ import hashlib
 import json
 import multiprocessing
 import os
+import re
 import signal
 import time
 import traceback
@@ -60,6 +61,10 @@ def scenario(desc):
                     cfg_extra={"out_dir": od} if od else None,
                     files={".gitignore": "monorail-out\n%s\n" % od.split("/")[0]} if od else None)
         viol = []
+        if desc.get("foreign"):
+            # every invocation (checkpoint, prefix runs, victim, observers, next run) is made as
+            # `-f <abs config>` from an unrelated directory
+            r.foreign_cwd()
         # a checkpoint with pending entries
         r.write("a/pending.txt", "pending\n")
         res = r.mr("checkpoint", "update", "-p")
@@ -111,7 +116,8 @@ def scenario(desc):
             c.auto_points = on_hit
             env = s.env(c.env(points=["slot.", "run.", "result.", "pointer."]))
             victim_args = ["run", "-c", "build"] if detected else ["run", "-c", "build", "-t", "a", "b", "c", "--deps"]
-            p = c.spawn("victim", [common.MONORAIL] + victim_args, r.dir, env)
+            argv_, cwd_ = r.cmdline(*victim_args)
+            p = c.spawn("victim", argv_, cwd_, env)
             t_end = time.time() + 30
             arrived = lambda: len(c.children)
             gone = lambda: len([ch for ch in c.children if ch.state == "gone" and ch.release_seq is not None])
@@ -168,7 +174,7 @@ def scenario(desc):
                 vic_logs = sorted([("stdout.zst", t, "build", b"victim output\n") for t in ("a", "b", "c")])
                 res = r.mr("result", "show")
                 ls = r.mr("log", "show", "--stdout", "--stderr")
-                inv = (res.json() or {}).get("invocation")
+                inv = re.sub(r"-f \S*Monorail\.json ", "", (res.json() or {}).get("invocation") or "")
                 if not (res.code == 0 and inv == " ".join(victim_args) and p_hist.parse_log_show(ls.out) == vic_logs):
                     viol += v1
         else:
@@ -220,6 +226,9 @@ def scenarios(tier):
     for st in KILL_STATES:
         out.append({"max": 2, "prefix": 1, "listener": True, "crash": {"kind": "kill", "state": list(st)}})
         out.append({"max": 10, "prefix": 10, "crash": {"kind": "kill", "state": list(st)}})
+    # everything invoked from an unrelated directory
+    for name in POINTS:
+        out.append({"max": 2, "prefix": 1, "foreign": True, "crash": {"kind": "point", "name": name}})
     # the victim selects its targets by change detection (checkpoint with a pending entry that was edited since)
     for name in POINTS:
         out.append({"max": 2, "prefix": 1, "victim": "detected", "crash": {"kind": "point", "name": name}})
